@@ -3,7 +3,10 @@
                   summaries; the harness-side clauses (frames_whole, reconstruct, ...) are passed through.
    (c10corr ...)  a hand-built deferred plan run through the real Resolver: frame bytes of the model
                   against the implementation for the observed completion order, the stream checker
-                  and the reconstruction spec on the implementation's own frames. *)
+                  and the reconstruction spec on the implementation's own frames.
+   (c10desc ...)  plan level: the ancestor chains of the deferred fragments of the normalised document and the
+                  DeferDescriptors of the real planner: the model's defer_path against the descriptor path, and
+                  the extracted checker desc_path_ok_b on the implementation's path. *)
 let strs x = List.map sbytes (lst x)
 
 let rec node_of (x : sexp) : node =
@@ -178,10 +181,85 @@ let handle_corr (rest : sexp list) : (string * string) list =
     if !res = [] then [("ok", detail)] else List.rev !res
   | _ -> [("error", "unrecognised c10corr case")]
 
+(* ---- plan level: descriptor paths ---- *)
+let schema_of = function
+  | L (A "schema" :: tys) ->
+    List.map (function
+      | L (A "ty" :: S name :: fs) ->
+        { td_name = bytes_of_string name;
+          td_fields = List.map (function
+            | L [A "f"; S n; l; S b] -> { fd_name = bytes_of_string n; fd_list = sbool l; fd_base = bytes_of_string b }
+            | x -> raise (Sexp_error ("field def: " ^ print_sexp x))) fs }
+      | x -> raise (Sexp_error ("type def: " ^ print_sexp x))) tys
+  | x -> raise (Sexp_error ("schema: " ^ print_sexp x))
+
+let chain_of = function
+  | L (A "chain" :: l) ->
+    AOther :: List.map (function
+      | L [A "fld"; L [A "none"]; S n] -> AField (None, bytes_of_string n)
+      | L [A "fld"; L [A "some"; S a]; S n] -> AField (Some (bytes_of_string a), bytes_of_string n)
+      | L [A "frag"; S c] -> AFrag (bytes_of_string c)
+      | x -> raise (Sexp_error ("ancestor: " ^ print_sexp x))) l
+  | x -> raise (Sexp_error ("chain: " ^ print_sexp x))
+
+let show_path (p : n list list) = "[" ^ String.concat "," (List.map string_of_bytes p) ^ "]"
+
+let handle_desc (rest : sexp list) : (string * string) list =
+  match rest with
+  | [ _cfg; _op; _vars; schema; L [A "root"; S root]; L [A "kind"; A kind]; L (A "defers" :: ds); L (A "real" :: rs); L [A "nt"; nt] ] ->
+    let sch = schema_of schema and root = bytes_of_string root in
+    let res = ref [] in
+    let add s d = res := (s, d) :: !res in
+    let real = List.map (function
+      | L [A "r"; A id; A parent; S label; L path] -> (int_of_string id, (int_of_string parent, label, List.map sbytes path))
+      | x -> raise (Sexp_error ("real: " ^ print_sexp x))) rs in
+    let chains = List.map (function
+      | L [A "d"; A id; A parent; S label; chain; L (A "more" :: more)] ->
+        (int_of_string id, (int_of_string parent, label, chain_of chain, List.map chain_of more))
+      | x -> raise (Sexp_error ("defer: " ^ print_sexp x))) ds in
+    if kind = "defer" then begin
+      List.iter (fun (id, (parent, label, chain, more)) ->
+        if not (List.for_all (chain_typed sch root) (chain :: more)) then add "error" (Printf.sprintf "descriptor %d: the ancestor chain read off the normalised document is not typed by the schema dump" id);
+        match List.assoc_opt id real with
+        | None -> add "mismatch" (Printf.sprintf "corr:C10/descpath no DeferDescriptor for defer id %d of the normalised document" id)
+        | Some (rparent, rlabel, rpath) ->
+          let mpath = defer_path sch root chain in
+          if mpath <> rpath then
+            add "mismatch" (Printf.sprintf "corr:C10/descpath id %d: model path %s, DeferDescriptor path %s" id (show_path mpath) (show_path rpath));
+          if rparent <> parent || rlabel <> label then
+            add "mismatch" (Printf.sprintf "corr:C10/descmeta id %d: parent/label (%d,%s) in the document, (%d,%s) in the descriptor" id parent label rparent rlabel);
+          if not (desc_path_ok_b sch root chain rpath) then
+            add "specfail" (Printf.sprintf "descriptor_path id %d: DeferDescriptor path %s is not the response keys up to the outermost list field %s [quirk=%s]"
+                              id (show_path rpath) (show_path (spec_path sch root chain))
+                              (if static_gives_up sch root chain && mpath = rpath then "typed-list" else "none"));
+          if not (anchor_ok_b rpath (chain :: more)) then begin
+            let bad = List.find (fun c -> not (prefix_b rpath (candidate c))) (chain :: more) in
+            add "specfail" (Printf.sprintf "descriptor_anchor id %d: DeferDescriptor path %s is not a prefix of the response position %s of a selection set holding fields of this defer (the subPath of its items does not compose with the pending path) [quirk=%s]"
+                              id (show_path rpath) (show_path (candidate bad))
+                              (if collector_path sch root (chain :: more) = rpath then "first-occurrence" else "none"))
+          end) chains;
+      (* a nested defer is mounted at or below its parent: the parent's path must be a prefix of the child's
+         (otherwise a dead parent anchor cancels a child that is mounted above it) *)
+      List.iter (fun (id, (parent, _, chain, more)) ->
+        match List.assoc_opt id real, List.assoc_opt parent real, List.assoc_opt parent chains with
+        | Some (_, _, rpath), Some (_, _, ppath), Some (_, _, pchain, pmore) when parent <> 0 && parent <> id ->
+          if not (prefix_b ppath rpath) then
+            add "specfail" (Printf.sprintf "descriptor_anchor id %d: the DeferDescriptor path %s of its parent %d is not a prefix of its own path %s (a dead parent anchor cancels this defer although it is mounted above it) [quirk=%s]"
+                              id (show_path ppath) parent (show_path rpath)
+                              (if collector_path sch root (chain :: more) = rpath && collector_path sch root (pchain :: pmore) = ppath then "first-occurrence" else "none"))
+        | _ -> ()) chains;
+      List.iter (fun (id, _) ->
+        if not (List.mem_assoc id chains) then
+          add "mismatch" (Printf.sprintf "corr:C10/descpath DeferDescriptor %d has no defer id in the normalised document" id)) real
+    end;
+    if !res = [] then [("ok", if sbool nt && kind = "defer" then "nt" else "tr")] else List.rev !res
+  | _ -> [("error", "unrecognised c10desc case")]
+
 let handle (x : sexp) : (string * string) list =
   match x with
   | L (A "c10spec" :: rest) -> handle_spec rest
   | L (A "c10corr" :: rest) -> handle_corr rest
+  | L (A "c10desc" :: rest) -> handle_desc rest
   | _ -> [("error", "unrecognised case")]
 
 let () = run_lines Sys.argv.(1) Sys.argv.(2) handle
